@@ -480,3 +480,73 @@ def guard_signature(F, fn, bb, defs=None):
         else:
             out.append("%s in %s" % (describe_operand(fn, defs, t["op"]), g["allowed"]))
     return sorted(set(out))
+
+
+def depends(F, fn, d, op, max_locals=400, use_bb=None):
+    """Backward data-dependence closure of an operand inside one function (flow-insensitive over definitions):
+    {'args': parameter locals reached, 'strs': string literals reached, 'calls': short callee names reached}.
+    Closures handed to a reached call (Option::map(|p| ..) etc.) contribute their own literals and callees."""
+    import re as _re
+    from .facts import callee as _callee, callee_def as _cd, op_place as _opl
+    out = {"args": set(), "strs": set(), "calls": set()}
+
+    def scan_const(o):
+        if isinstance(o, dict) and isinstance(o.get("k"), dict) and "str" in o["k"]:
+            out["strs"].add(o["k"]["str"])
+
+    def scan_closure(cf):
+        for b, i, s in cf.stmts():
+            rv = s.get("rv") or {}
+            for key in ("op", "a", "b"):
+                scan_const(rv.get(key))
+            for o in rv.get("ops", []) or []:
+                scan_const(o)
+        for b, t in cf.calls():
+            out["calls"].add(short(_callee(t) or _cd(t)))
+            for a in t["args"]:
+                scan_const(a)
+    # control dependence: a definition made under a branch the use site is not itself under (`a && b`, `if c {x} else {y}`)
+    use_gates = {b for b, _ in edge_conditions(fn, [use_bb])} if use_bb is not None else set()
+    ctl_done = set()
+
+    def control(bb):
+        if use_bb is None or bb in ctl_done:
+            return
+        ctl_done.add(bb)
+        for gb, _vals in edge_conditions(fn, [bb]):
+            if gb not in use_gates:
+                st.append(fn.term(gb)["op"])
+    seen, st = set(), [op]
+    while st and len(seen) < max_locals:
+        o = st.pop()
+        scan_const(o)
+        pl = _opl(o) if isinstance(o, dict) else None
+        if pl is None or pl["l"] in seen:
+            continue
+        l = pl["l"]
+        seen.add(l)
+        if 1 <= l <= fn.d.get("arg_count", 0):
+            out["args"].add(l)
+        for dd in d.defs.get(l, []):
+            control(dd[0])
+            if dd[2] == "call":
+                t = dd[3]
+                out["calls"].add(short(_callee(t) or _cd(t)))
+                st.extend(t["args"])
+                for ta in (t.get("fn") or {}).get("targs", []) or []:
+                    m = _re.match(r"\{closure@([^:]+):(\d+):", ta)
+                    if m:
+                        for cp in F.closures_of(fn.path):
+                            cf = F.fns[cp]
+                            sp = cf.d.get("span") or {}
+                            if sp.get("lo") == int(m.group(2)):
+                                scan_closure(cf)
+            else:
+                rv = dd[3]["rv"]
+                for key in ("op", "a", "b"):
+                    if isinstance(rv.get(key), dict):
+                        st.append(rv[key])
+                if "place" in rv:
+                    st.append({"cp": rv["place"]})
+                st.extend(rv.get("ops", []) or [])
+    return out
